@@ -67,3 +67,25 @@ Definition fcbs_case_ok (c : fcbs_case) : bool :=
   | Some (an, am) => plist_same an (fc_anoms c) && plist_same (map fst am) (fc_inner c)
                      && flist_same (map snd am) (fc_max c)
   end.
+
+(** ---- the code AS FIXED (D25), for any threshold: Model/GenericAny.v at the binary64 instance ---- *)
+From SK Require Import Model.GenericAny.
+Definition fmw_any_case_ok (c : fmw_case) : bool :=
+  let CS := fun (_ k _ : nat) => nth k (fw_row c) 0%float in
+  let '(sc, cp) := gmw_any F64 CS (fw_b c) (fw_n c) (fw_thr c) (fw_mdi c) in
+  flist_same sc (fw_scores c) && nlist_same cp (fw_cpts c).
+Definition fsbs_any_case_ok (c : fsbs_case) : bool :=
+  let CS := fun (s k e : nat) => nth (k - (s + fs_m c)) (find_row (s, e) (fs_ivs c) (fs_rows c)) 0%float in
+  match gsbs_any F64 CS (fs_m c) (fs_thr c) (fs_ivs c) with
+  | None => false
+  | Some (cp, am) => nlist_same cp (fs_cpts c) && nlist_same (map fst am) (fs_argmax c)
+                     && flist_same (map snd am) (fs_max c)
+  end.
+Definition fcbs_any_case_ok (c : fcbs_case) : bool :=
+  let LS := fun (s a b e : nat) =>
+              nth (index_of (a, b) (anomaly_intervals s e (fc_m c)) 0) (find_row (s, e) (fc_ivs c) (fc_rows c)) 0%float in
+  match gcbs_any F64 LS (fc_m c) (fc_thr c) (fc_ivs c) with
+  | None => false
+  | Some (an, am) => plist_same an (fc_anoms c) && plist_same (map fst am) (fc_inner c)
+                     && flist_same (map snd am) (fc_max c)
+  end.
